@@ -88,7 +88,38 @@ Proof.
   rewrite Hd, Hp in Ho, Heq. cbn [andb fst snd] in Ho, Heq. split; [exact Ho|exact Heq].
 Qed.
 
+(* corollaries: renaming a name without an entry fails with "not exist" and changes no name's entry;
+   renaming a present name onto itself succeeds and changes no name's entry *)
+Theorem C12_rename_of_missing_name_changes_nothing : forall (hr : bool) (c : cfg), plain c -> 0 < c_rs c -> c_readonly c = false ->
+  forall s e old new, Good hr c s -> hb_env e -> good old -> good new -> new <> [slash] -> old <> [slash] ->
+  lookup (abs s) old = None ->
+  let '(s', o) := step c (with_env s e) (CRename old new) in
+  o = ONotExist /\ forall m, lookup (abs s') m = lookup (abs s) m.
+Proof.
+  intros hr c HP Hrs Hro s e old new HG He Go Gn Hn Hold Hl.
+  pose proof (T02_rename hr c HP Hrs Hro s e old new HG He Go Gn Hn) as H.
+  destruct (step c (with_env s e) (CRename old new)) as [s' o]. destruct H as (_ & Ho & Heq).
+  unfold spec_rename in Ho, Heq.
+  replace (eqb_str old [slash]) with false in Ho, Heq by (symmetry; apply eqb_str_neq; exact Hold).
+  rewrite Hl in Ho, Heq. cbn [fst snd] in Ho, Heq. split; [exact Ho|exact Heq].
+Qed.
+Theorem C12_rename_onto_itself_changes_nothing : forall (hr : bool) (c : cfg), plain c -> 0 < c_rs c -> c_readonly c = false ->
+  forall s e old sv, Good hr c s -> hb_env e -> good old -> old <> [slash] ->
+  lookup (abs s) old = Some sv ->
+  let '(s', o) := step c (with_env s e) (CRename old old) in
+  o = OOk /\ forall m, lookup (abs s') m = lookup (abs s) m.
+Proof.
+  intros hr c HP Hrs Hro s e old sv HG He Go Hold Hl.
+  pose proof (T02_rename hr c HP Hrs Hro s e old old HG He Go Go Hold) as H.
+  destruct (step c (with_env s e) (CRename old old)) as [s' o]. destruct H as (_ & Ho & Heq).
+  unfold spec_rename in Ho, Heq.
+  replace (eqb_str old [slash]) with false in Ho, Heq by (symmetry; apply eqb_str_neq; exact Hold).
+  rewrite Hl, (C01Str.eqb_str_refl old) in Ho, Heq. cbn [fst snd] in Ho, Heq. split; [exact Ho|exact Heq].
+Qed.
+
 Print Assumptions C12_children_exact.
+Print Assumptions C12_rename_of_missing_name_changes_nothing.
+Print Assumptions C12_rename_onto_itself_changes_nothing.
 Print Assumptions C12_remove_all_touches_exactly_the_subtree.
 Print Assumptions C12_remove_all_leaves_nothing_of_the_subtree.
 Print Assumptions C12_rename_is_the_reference_move.
